@@ -327,6 +327,20 @@ func runAllocCase(rep *Report, ac allocCase, rng *rand.Rand) (alloc uint64) {
 	}
 	runtime.ReadMemStats(&m1)
 	alloc = m1.TotalAlloc - m0.TotalAlloc
+	if ac.Row.Exp.O == "tooBig" {
+		// the peer is told why: a Close frame with status 1009, whatever length the oversized frame declared
+		c.CloseNow()
+		fs, _, _ := ws.DecodeAll(raw.In.Snapshot())
+		told := false
+		for _, f := range fs {
+			if f.Op == ws.OpClose && len(f.Payload) >= 2 && int(f.Payload[0])<<8|int(f.Payload[1]) == 1009 {
+				told = true
+			}
+		}
+		if !told {
+			rep.miss("limit-no-1009-close-frame", ac, fmt.Sprintf("read failed with %v; frames written: %d", rerr, len(fs)))
+		}
+	}
 	switch ac.Row.Exp.O {
 	case "fail", "tooBig":
 		if rerr == io.EOF || rerr == nil {
